@@ -237,6 +237,14 @@ pub struct TcpRecorder {
     state: Arc<State>,
 }
 
+#[cfg(metrics_verif)]
+impl TcpRecorder {
+    /// Verification-only read access to the exporter's client accounting: `(client_count, should_send)`.
+    pub fn verif_state(&self) -> (usize, bool) {
+        (self.state.client_count.load(Ordering::Acquire), self.state.should_send())
+    }
+}
+
 /// Builder for creating and installing a TCP recorder/exporter.
 #[derive(Debug)]
 pub struct TcpBuilder {
